@@ -49,7 +49,8 @@ PROPS = {
              "Non-trivial: the reference reaches a verdict other than plain accept, or transfers were pending.",
         assumptions=ASSUME_SIM + ["strictness beyond the violations listed in the property (reserved header flags on acknowledgements, empty or ill-formed topic in an inbound PUBLISH, non-minimal length) is EITHER: the reference follows the client"],
         quick=dict(engines=[rapid('^TestC13Hostile', 8000), rapid('^TestC13Allocation', 48, shards=4)]),
-        thorough=dict(engines=[rapid('^TestC13Hostile', 200000, shards=14, timeout=1500), rapid('^TestC13Allocation', 400, shards=4)]),
+        thorough=dict(engines=[rapid('^TestC13Hostile', 200000, shards=14, timeout=1500), rapid('^TestC13Allocation', 400, shards=4),
+                               dict(kind='fuzz', run='^FuzzC13BrokerBytes$', fuzztime='150s', parallel=12, timeout=600)]),
     ),
     'C10': dict(
         claimed=True,
@@ -350,7 +351,8 @@ PROPS['C15'] = dict(
     assumptions=ASSUME_SIM + ["32-bit checksum: damage of two or more bytes is measured, not claimed"],
     exhaustive_note="the single-byte damage enumeration is complete per generated record of <= 300 bytes; records are sampled",
     quick=dict(engines=C15_ENGINES_QUICK + [rapid('^TestC15bStoredValues', 1600, steps=25)]),
-    thorough=dict(engines=C15_ENGINES_THOROUGH + [rapid('^TestC15bStoredValues', 40000, shards=14, steps=40, timeout=1500)]),
+    thorough=dict(engines=C15_ENGINES_THOROUGH + [rapid('^TestC15bStoredValues', 40000, shards=14, steps=40, timeout=1500),
+                           dict(kind='fuzz', run='^FuzzC15Decode$', fuzztime='60s', parallel=8, timeout=400)]),
 )
 
 PROPS['C09'] = dict(
